@@ -42,6 +42,8 @@ CONSTANTS
   Weak_ParamsBookkeeping,     \* updateState: LastHeightConsensusParamsChanged := h instead of h+1
   Weak_CommitAddrUnchecked,   \* validateBlock accepts a CommitSig whose ValidatorAddress is not the address of the validator
                               \* at its position (the behaviour before proposed-fixes/C06-commit-sig-address.diff)
+  Weak_StoredResponsesDropParamUpdates, \* the crash-recovery record of the ABCI responses written when the store runs with
+                              \* DiscardABCIResponses loses EndBlock.ConsensusParamUpdates
   Weak_BudgetUsesCurrentVals  \* CreateProposalBlock sizes the commit with Validators.Size() (S10, the
                               \* behaviour before proposed-fixes/C06-proposal-budget-lastvals.diff)
 
@@ -385,6 +387,27 @@ NextState(st, b, bid, resp) ==
                                      ELSE st.lastHeightParamsChanged,
          lastResultsHash |-> ResultsHash(resp.results),
          appHash |-> resp.appHash ]]
+
+(* The two ways a node applies a block.
+   live   : BlockExecutor.ApplyBlock with the responses the application gives (NextState above).
+   stored : the node crashed between the application's Commit and stateStore.Save (the last fail
+            point of ApplyBlock).  On restart consensus.Handshaker.ReplayBlocks finds the block store
+            one ahead of the state and the application at the store's height, and replays the block
+            through ApplyBlock with a mock application that answers from the record
+            state/store.go SaveABCIResponses wrote before the crash (LoadLastABCIResponse).  That
+            "last response" record is written synchronously in BOTH store modes; with
+            DiscardABCIResponses only the per-height copy (RPC /block_results, reindexing) is omitted.
+   StoredResponses = what comes back from the store, as far as updateState reads it: the
+   DeliverTx results (code, data, gas; log/info/events are not committed to), the validator
+   updates and the consensus parameter updates.  It must be the identity on that part, for
+   both modes - otherwise the recovering node computes another next state than its peers.    *)
+ApplyVariants == {"live", "stored", "stored_discard"}
+StoredResponses(resp, variant) ==
+  IF variant = "stored_discard" /\ Weak_StoredResponsesDropParamUpdates
+  THEN [resp EXCEPT !.pu = NoParamUpdate]
+  ELSE resp
+ApplyVia(st, b, bid, resp, variant) ==
+  NextState(st, b, bid, IF variant = "live" THEN resp ELSE StoredResponses(resp, variant))
 
 (* state/execution.go execBlockOnProxyApp: what the application is shown of a block -
    getBeginBlockValidatorInfo (one entry per validator of the LAST block's set, from the state
